@@ -172,6 +172,22 @@ pub struct Obs {
     pub vars_panic: Option<String>,
 }
 
+/// The derived Debug of the iterator prints hash maps in arbitrary order: drop those sections
+/// (`outputs: {...}`); the canonical part of the key renders them sorted.
+pub fn canonical_key(k: String) -> String {
+    let mut out = String::with_capacity(k.len());
+    let mut rest = k.as_str();
+    while let Some(a) = rest.find("outputs: {") {
+        let after = &rest[a + 10..];
+        let Some(b) = after.find('}') else { break };
+        out.push_str(&rest[..a]);
+        out.push_str("outputs: _");
+        rest = &after[b + 1..];
+    }
+    out.push_str(rest);
+    out
+}
+
 fn project_row(row: &dtr::DataRow<'_>) -> ObsRow {
     let failing: Vec<*const dtr::OutputResultEntry<'_>> = row.failing_outputs().map(|e| e as *const _).collect();
     ObsRow {
@@ -283,7 +299,7 @@ where
         obs.calls_after.push(calls());
         if let Some(it) = it.as_mut() {
             if opts.collect_key {
-                obs.key = Some(it.verif_state_key());
+                obs.key = Some(canonical_key(it.verif_state_key()));
             }
             let mut extra = opts.after_end;
             let mut n = 0;
@@ -314,7 +330,7 @@ where
                     }));
                 }
                 if opts.collect_key {
-                    obs.key = guard(opts.budget, || it.verif_state_key()).ok();
+                    obs.key = guard(opts.budget, || it.verif_state_key()).ok().map(canonical_key);
                 }
                 if is_err && !opts.continue_after_error {
                     break;
@@ -363,6 +379,32 @@ pub fn run_loaded(tc: &dtr::TestCase, sigs: &[Sig], ov: bool, script: &[Step], o
     }
 }
 
+/// Lines reported by `tc` when another iterator (over `other`) is advanced between all of its
+/// next() calls, on the same thread.
+pub fn lines_with_companion(tc: &dtr::TestCase, sigs: &[Sig], script: &[Step], other: &dtr::TestCase, other_sigs: &[Sig], other_script: &[Step], max: usize) -> Result<Vec<usize>, Caught> {
+    let mut da = ScriptDriver::<true>::new(sigs, script);
+    da.repeat_last = true;
+    let mut db = ScriptDriver::<true>::new(other_sigs, other_script);
+    db.repeat_last = true;
+    hooks::set_seed_override(Some(1));
+    let r = guard(DEFAULT_BUDGET, || {
+        let mut lines = vec![];
+        let (Ok(mut a), Ok(mut b)) = (tc.try_iter(&mut da), other.try_iter(&mut db)) else { return lines };
+        for _ in 0..max {
+            match a.next() {
+                Some(Ok(r)) => lines.push(r.line),
+                Some(Err(_)) => lines.push(0),
+                None => break,
+            }
+            let _ = b.next();
+        }
+        lines
+    });
+    hooks::set_seed_override(None);
+    let _ = hooks::take_draw_log();
+    r
+}
+
 #[derive(Clone, Debug, PartialEq, Eq, Hash)]
 pub struct StaticRow {
     pub line: usize,
@@ -380,6 +422,11 @@ pub enum StaticObs {
 
 /// Run the static API to completion (at most `max` rows; the flag says whether the end was reached).
 pub fn run_static(tc: &dtr::TestCase, max: usize, seed: u64, budget: u64) -> StaticObs {
+    run_static_opt(tc, max, seed, budget, false)
+}
+
+/// `carry_on`: keep calling next() after an error item
+pub fn run_static_opt(tc: &dtr::TestCase, max: usize, seed: u64, budget: u64, carry_on: bool) -> StaticObs {
     hooks::set_seed_override(Some(seed));
     let r = guard(budget, || {
         let it = match tc.try_iter_static() {
@@ -402,7 +449,9 @@ pub fn run_static(tc: &dtr::TestCase, max: usize, seed: u64, budget: u64) -> Sta
                 })),
                 Some(Err(e)) => {
                     rows.push(Err(miette_chain(&e)));
-                    break;
+                    if !carry_on {
+                        break;
+                    }
                 }
             }
         }
